@@ -880,12 +880,12 @@ func (s *seq) run(rng *rand.Rand, n int) {
 			}
 		case "create-burst":
 			// several clients ask for a token at the same moment: every answer is a different, working token
-			s.op(kind, "create 12 tokens from 6 clients at once")
+			s.op(kind, "create 24 tokens from 12 clients at once")
 			type ans struct {
 				code int
 				tok  string
 			}
-			out := make([][]ans, 6)
+			out := make([][]ans, 12)
 			var wg sync.WaitGroup
 			start := make(chan struct{})
 			for g := range out {
@@ -902,7 +902,7 @@ func (s *seq) run(rng *rand.Rand, n int) {
 			}
 			close(start)
 			wg.Wait()
-			s.r.Count("tokens_requested_concurrently", 12)
+			s.r.Count("tokens_requested_concurrently", 24)
 			for _, as := range out {
 				for _, a := range as {
 					if a.code < 200 || a.code > 299 || a.tok == "" {
